@@ -173,7 +173,7 @@ func (in *Interp) assign(st *State, lhs ast.Expr, v Val, tok token.Token, rhs as
 	lhs = unparen(lhs)
 	rhsText := ""
 	if rhs != nil {
-		rhsText = in.operand(st, rhs)
+		rhsText = in.operandVal(st, rhs, v)
 	}
 	switch l := lhs.(type) {
 	case *ast.Ident:
@@ -261,6 +261,22 @@ func (in *Interp) assign(st *State, lhs ast.Expr, v Val, tok token.Token, rhs as
 			if t != nil {
 				in.storePath(st, ov.Path, t, v, l.Pos(), tok.String(), rhsText)
 				return
+			}
+		}
+		if pp, ok := pv.(PtrV); ok {
+			if pp.Var == nil {
+				in.storePath(st, pp.Path, pp.Elem, v, l.Pos(), tok.String(), rhsText)
+				return
+			}
+			if tok == token.ASSIGN {
+				st.vars[pp.Var] = v
+				return
+			}
+			if cur, ok := st.vars[pp.Var].(IntV); ok {
+				if iv, ok := v.(IntV); ok {
+					st.vars[pp.Var] = IntV{in.applyOp(cur.T, iv.T, tok, pp.Elem)}
+					return
+				}
 			}
 		}
 		in.note(l.Pos(), "store through unresolved pointer %s", in.render(st, l))
@@ -351,6 +367,9 @@ func (in *Interp) exec(st *State, s ast.Stmt) (*State, bool) {
 				in.addRead(r)
 			} else {
 				in.packedReads(st, x.Rhs[i], in.operand(st, l))
+				if x.Tok == token.ASSIGN || x.Tok == token.DEFINE {
+					in.relabelRead(st, l, vals[i])
+				}
 			}
 			in.assign(st, l, vals[i], x.Tok, x.Rhs[i])
 		}
@@ -753,6 +772,10 @@ func (in *Interp) defaultField(st *State, path string, like Val) Val {
 
 func joinVal(cond string, a, b Val) Val {
 	switch av := a.(type) {
+	case ClosV:
+		if bv, ok := b.(ClosV); ok && av.Lit == bv.Lit {
+			return av
+		}
 	case IntV:
 		if bv, ok := b.(IntV); ok {
 			return IntV{Ite(cond, av.T, bv.T)}
@@ -2033,6 +2056,57 @@ func (in *Interp) destName(st *State, l ast.Expr) string {
 		}
 	}
 	return in.operand(st, l)
+}
+
+// relabelRead: a value that was read from the input into a local (inside a helper closure, or a
+// temporary) and is now stored unchanged into a receiver field is a read of that field.
+func (in *Interp) relabelRead(st *State, l ast.Expr, v Val) {
+	se, ok := unparen(l).(*ast.SelectorExpr)
+	if !ok {
+		return
+	}
+	p, _, ok := in.selPath(st, se)
+	if !ok || !(strings.HasPrefix(p, "$") || strings.HasPrefix(p, "new#")) {
+		return
+	}
+	root := in
+	for root.parent != nil {
+		root = root.parent
+	}
+	local := func(r *Rec) bool {
+		return !strings.HasPrefix(r.Src, "val($") && !strings.HasPrefix(r.Src, "$") && !strings.HasPrefix(r.Src, "dec(") &&
+			!strings.HasPrefix(r.Src, "val(new#") && !strings.HasPrefix(r.Src, "new#")
+	}
+	switch vv := v.(type) {
+	case IntV:
+		at := vv.T.SingleAtom()
+		if at == nil || at.Kind != "val" || !strings.HasPrefix(at.Path, "P[") || vv.T.C != 0 {
+			return
+		}
+		for i := len(root.Reads) - 1; i >= 0; i-- {
+			r := root.Reads[i]
+			if (r.Kind != "int" && r.Kind != "byte") || !local(r) {
+				continue
+			}
+			key := "P[" + r.Off.String() + "]"
+			if r.Kind == "int" {
+				key = "P[" + r.Off.String() + ":" + r.W.String() + "]"
+			}
+			if key == at.Path {
+				r.Src = in.destName(st, l)
+				return
+			}
+		}
+	case BufV:
+		if b := st.bufs[vv.ID]; b != nil && b.FromRead != nil && local(b.FromRead) {
+			for _, r := range root.Reads {
+				if r == b.FromRead {
+					r.Src = in.destName(st, l)
+					return
+				}
+			}
+		}
+	}
 }
 
 func identObjOf(in *Interp, e ast.Expr) types.Object {
